@@ -1375,7 +1375,7 @@ RULE_MODELS = ("random trees from the grammar of tools/gen_cases.py (every joint
 
 PROPS = {
     "C01": {
-        "gen": gen_C01,
+        "gen": gen_C01, "extra_props": ["GenLaws"],
         "rule": RULE_MODELS + "; external forces on a random subset in half of the cases",
         "explanation": "theorems: code-shaped RNEA model = Newton-Euler specification (see RbdlProofs/Props/C01.lean); tie: InverseDynamics output vs exact model output (correspondence) and vs the first-principles jet specification (monitor)",
         "assumptions": COMMON_ASSUMPTIONS,
@@ -1386,11 +1386,11 @@ PROPS = {
     "C03": {"gen": gen_C03, "rule": RULE_MODELS + "; calls: CompositeRigidBodyAlgorithm (flag set / cleared), NonlinearEffects, CalcKineticEnergy, InverseDynamics, CalcMInvTimesTau",
             "explanation": "monitor: H = sum J^T M J from partial velocities of the jet specification; N = Newton-Euler at zero acceleration",
             "assumptions": COMMON_ASSUMPTIONS},
-    "C04": {"gen": gen_C04, "rule": RULE_MODELS + "; body ids of every class (movable, virtual, fixed)", "explanation": "monitor: pose composition from the base outward",
+    "C04": {"gen": gen_C04, "extra_props": ["GenLaws"], "rule": RULE_MODELS + "; body ids of every class (movable, virtual, fixed)", "explanation": "monitor: pose composition from the base outward",
             "assumptions": COMMON_ASSUMPTIONS},
     "C05": {"gen": gen_C05, "rule": RULE_MODELS + "; zero- and garbage-initialised Jacobians", "explanation": "monitor: columns = first-order jets of the pose at unit generalized velocities",
             "assumptions": COMMON_ASSUMPTIONS},
-    "C06": {"gen": gen_C06, "rule": RULE_MODELS, "explanation": "monitor: first and second jets of point positions / orientation",
+    "C06": {"gen": gen_C06, "extra_props": ["GenLaws"], "rule": RULE_MODELS, "explanation": "monitor: first and second jets of point positions / orientation",
             "assumptions": COMMON_ASSUMPTIONS},
     "C14": {"gen": gen_C14, "impl_monitor": impl_monitor_C14,
             "rule": "random construction sequences of 2-9 calls (AddBody with every joint kind, AppendBody, AddBodyCustomJoint, fixed bodies on any parent, named / unnamed) with one failing call (duplicate name on the movable / fixed / multi-DoF / custom path, or an undefined joint type) injected at a random position; structural dump and all numeric parameters after every call; accessors and a dynamics call at the end; distinct = distinct op-kind sequences",
@@ -1400,7 +1400,7 @@ PROPS = {
             "rule": "Join / Join-then-Separate on random body pairs and rational relative poses (every fifth pair with a massless first body); 1-3 setter calls (mass / com / inertia / all) on a movable body without attachments or on a fixed body (on movable, fixed or massless virtual parents), compared with a model built from scratch with the new parameters on InverseDynamics, CRBA, ForwardDynamics, CalcCenterOfMass; distinct = distinct (model shape, setter sequence) + number of body pairs",
             "explanation": "monitor: rigid union from the definitions (parallel-axis theorem about the union's centre of mass); twin comparison setter-model vs rebuilt model on the implementation; correspondence with the Lean Body.join/separate and setter model",
             "assumptions": COMMON_ASSUMPTIONS},
-    "C16": {"gen": gen_C16,
+    "C16": {"gen": gen_C16, "extra_props": ["GenLaws"],
             "rule": "every compact operator of SpatialAlgebraOperators.h / Quaternion.h / rbdl_mathutils on random rational arguments (rational rotations, translations, inertias, unit quaternions incl. rotations by half a turn with trace -1, diagonally dominant shuffled systems for the Gauss solver); distinct = number of (operator, argument) pairs",
             "explanation": "46 theorems: each compact operator equals its 6x6 matrix definition, composition laws, power invariance, quaternion laws; correspondence: the C++ operator vs the Lean definition on explicit arguments",
             "assumptions": COMMON_ASSUMPTIONS},
